@@ -581,6 +581,19 @@ More2 == <<
   V("ExprFunctionCall/dim", "ExprFunctionCall", {"expr", "deref"}, "both", L.atom, FALSE,
     [Function |-> Nd("ExprArrayDimFetch", [Var |-> Ch("propchain", 0), OpenBracketTkn |-> Tk("["), Dim |-> Ch("expr", 0), CloseBracketTkn |-> Tk("]")]),
      OpenParenthesisTkn |-> Tk("("), Args |-> Args, CloseParenthesisTkn |-> Tk(")")]),
+  V("ExprFunctionCall/dim2", "ExprFunctionCall", {"expr", "deref"}, "both", L.atom, TRUE,
+    [Function |-> Nd("ExprArrayDimFetch",
+        [Var |-> Nd("ExprPropertyFetch", [Var |-> Nd("ExprPropertyFetch", [Var |-> SimpleVar, ObjectOperatorTkn |-> Tk("->"), Prop |-> Ident("IDENT")]),
+                                          ObjectOperatorTkn |-> Tk("->"), Prop |-> Ident("IDENT")]),
+         OpenBracketTkn |-> Tk("["), Dim |-> Nd("ScalarLnumber", [NumberTkn |-> Tk("LNUM"), Value |-> Vl("NumberTkn")]), CloseBracketTkn |-> Tk("]")]),
+     OpenParenthesisTkn |-> Tk("("), Args |-> Args, CloseParenthesisTkn |-> Tk(")")]),
+  V("ExprFunctionCall/dim3", "ExprFunctionCall", {"expr", "deref"}, "both", L.atom, TRUE,
+    [Function |-> Nd("ExprArrayDimFetch",
+        [Var |-> Nd("ExprPropertyFetch", [Var |-> Nd("ExprMethodCall", [Var |-> Nd("ExprPropertyFetch", [Var |-> SimpleVar, ObjectOperatorTkn |-> Tk("->"), Prop |-> Ident("IDENT")]),
+                                                      ObjectOperatorTkn |-> Tk("->"), Method |-> Ident("IDENT"), OpenParenthesisTkn |-> Tk("("), CloseParenthesisTkn |-> Tk(")")]),
+                                          ObjectOperatorTkn |-> Tk("->"), Prop |-> Ident("IDENT")]),
+         OpenBracketTkn |-> Tk("["), Dim |-> SimpleVar, CloseBracketTkn |-> Tk("]")]),
+     OpenParenthesisTkn |-> Tk("("), Args |-> Args, CloseParenthesisTkn |-> Tk(")")]),
   \* class references that are member accesses:  new $a::$b, new $a->b($x), $x instanceof $a->b
   V("ExprStaticPropertyFetch/classref", "ExprStaticPropertyFetch", {"classref"}, "both", L.atom, TRUE,
     [Class |-> SimpleVar, DoubleColonTkn |-> Tk("::"), Prop |-> SimpleVar]),
